@@ -1,4 +1,5 @@
 import LoguruModel.Retention.Lemmas
+import LoguruModel.Retention.Dispatch
 /-
 C10 – property theorems (only the theorems and their non-vacuity examples live here).
 The pattern lists, the wildcard for a field, the sort key, the slice start, the age comparison and
@@ -333,6 +334,66 @@ theorem age_keeps_recent (logs : List Entry) (now d : Int) (e : Entry) :
     · intro h; have : ¬ e.mtime ≤ now - d := fun h' => h ⟨he, h'⟩; omega
     · intro h h'; omega
 
+/-! ### what the `retention=` argument denotes (`_make_retention_function`) -/
+
+/-- an int N is the count policy N (generated `number=` kernel) -/
+theorem int_policy_exact (n : Int) : makeRetention (.int n) = .ok (.policy (.count n)) := rfl
+
+/-- a timedelta is the age policy of EXACTLY its length, sub-second part included (generated
+`seconds=` kernel; microseconds) -/
+theorem timedelta_policy_exact (us : Int) : makeRetention (.timedelta us) = .ok (.policy (.age us)) := rfl
+
+/-- a string in any spelling `parse_duration` accepts is the age policy of exactly the duration it
+denotes; a string that is no duration is rejected with ValueError at `add()` -/
+theorem duration_string_policy (s : Str) :
+    makeRetention (.str s) =
+      match Rotation.parseDuration s with
+      | .ok (some us) => .ok (.policy (.age us))
+      | .ok none => .error .valueError
+      | .error e => .error e := by
+  simp only [makeRetention]
+  cases Rotation.parseDuration s with
+  | error e => rfl
+  | ok o => cases o <;> rfl
+
+/-- whatever the spelling, a sink configured with a duration behaves as the age policy of that
+exact duration -/
+theorem configured_duration_exact (path s : Str) (us now : Int) (entries : List Entry)
+    (h : Rotation.parseDuration s = .ok (some us)) :
+    retentionConfigured path (.str s) now entries = retentionOf path (.age us) now entries ∧
+    retentionConfigured path (.timedelta us) now entries = retentionOf path (.age us) now entries := by
+  unfold retentionConfigured
+  rw [duration_string_policy, h, timedelta_policy_exact]
+  exact ⟨rfl, rfl⟩
+
+/-- **Duration policy end to end**, for every path, spelling, clock value and population: a file is
+removed iff it is a selected regular family file modified at or before `now − d`, `d` the exact
+duration the string denotes – so every selected file with `mtime > now − d` survives -/
+theorem configured_duration_keeps_exactly_within (path s : Str) (us now : Int) (entries del : List Entry)
+    (ps : List Str) (hps : makeGlobPatterns path = .ok ps)
+    (h : Rotation.parseDuration s = .ok (some us))
+    (hr : retentionConfigured path (.str s) now entries = .ok del) (e : Entry) :
+    e ∈ del ↔ (e ∈ selectLogs ps entries ∧ e.mtime ≤ now - us) := by
+  rw [(configured_duration_exact path s us now entries h).1] at hr
+  unfold retentionOf at hr
+  simp only [hps] at hr
+  injection hr with hr
+  subst hr
+  exact (age_keeps_recent (selectLogs ps entries) now us e).1
+
+/-- what the shape `seconds=int(retention.total_seconds())` would lose: for EVERY duration with a
+sub-second part there is a modification time within the duration that the truncated policy removes
+(any age in `(floor d, d)`) – the refutation of that shape, and where to look for the failing file -/
+theorem truncated_seconds_refuted (us now : Int) (h0 : 0 ≤ us) (hf : us % 1000000 ≠ 0) :
+    truncSecondsUs us < us ∧
+    ∃ mtime, now - us < mtime ∧ Gen.ageDeletes mtime now (truncSecondsUs us) = true := by
+  have ht : truncSecondsUs us = us / 1000000 * 1000000 := by
+    unfold truncSecondsUs; rw [Int.tdiv_eq_ediv_of_nonneg h0]
+  have hlt : truncSecondsUs us < us := by rw [ht]; omega
+  refine ⟨hlt, now - truncSecondsUs us, by omega, ?_⟩
+  unfold Gen.ageDeletes
+  simp
+
 /-! ### when retention runs -/
 
 /-- **Timing.**  In `_terminate_file` retention runs iff a retention policy exists and (the sink is
@@ -364,5 +425,13 @@ example : (retentionCount [⟨"a".toList, true, 5⟩, ⟨"b".toList, true, 7⟩,
 example : (retentionAge [⟨"a".toList, true, 5⟩, ⟨"b".toList, true, 7⟩] 10 5).map (·.name) = ["a".toList] := by decide
 example : terminate ⟨true, true, true, false, true⟩ true = [.close, .rename, .retention, .create] := by decide
 example : terminate ⟨true, true, true, false, true⟩ false = [.close] := by decide
+
+example : Rotation.parseDuration "2 s 700 ms".toList = .ok (some 2700000) := by rfl
+example : Rotation.parseDuration "2.9 s".toList = .ok (some 2900000) := by rfl
+example : Rotation.parseDuration "900 ms".toList = .ok (some 900000) := by rfl
+/-- a file aged 2.1 s survives `retention="2 s 700 ms"`, one aged 3.5 s does not -/
+example : (retentionConfigured "a.log".toList (.str "2 s 700 ms".toList) 10000000
+      [⟨"a.log.1".toList, true, 10000000 - 2100000⟩, ⟨"a.log.2".toList, true, 10000000 - 3500000⟩]).map
+      (·.map (·.name)) = .ok ["a.log.2".toList] := by rfl
 
 end C10
